@@ -314,3 +314,46 @@ func ZzParseString(s string) (*ChordList, error) {
 
 // ZzNewModelReader is the constructor the engine substitutes for ybase.NewReader.
 func ZzNewModelReader(src []rune) ybase.Reader { return &verifReader{src: src} }
+
+// VerifC04Sentences: whole sentences with REPEATED content — the same key, value, number or
+// chord written twice in one piece — through the real lexer and parser: the tree lists every
+// written item, in order, however often the same text occurs (nothing is merged, deduplicated
+// or reordered). The bounded token-string harness names every token differently and cannot
+// reach two metadata pairs; this one can.
+func VerifC04Sentences() {
+	k := vf.NondetIntRange("elements", 1, vf.Param("C04.sentenceElements", 2))
+	text := ""
+	for i := 0; i < k; i++ {
+		switch vf.NondetIntRange("element", 0, 2) {
+		case 0:
+			text += "C"
+		case 1:
+			text += "C#_m7/C#"
+		default:
+			text += "R"
+		}
+		text += []string{"[1]", "[1,1,1/1]"}[vf.NondetIntRange("values", 0, 1)]
+		text += []string{"", "{a=x}", "{a=x,a=y}", "{a=x,b=y,a=x}", "{a=x,a=x}", "{a=a,x=x,a=a,x=a}"}[vf.NondetIntRange("meta", 0, 5)]
+		text += " "
+	}
+	src := []rune(text)
+	vf.Unwind(40*len(src) + 400)
+	vf.MaxDepth(len(src) + 60)
+	lex, _ := verifNewLexer(src)
+	ret := Parse(lex)
+	vf.Assert("sentence-is-accepted", ret == 0 && lex.Err() == nil && lex.Result != nil)
+	if ret != 0 || lex.Result == nil {
+		return
+	}
+	vf.Unwind(1 << 20) // the bound above is for the code under test, not for the reference
+	vf.MaxDepth(1000)
+	kinds, texts, failed := verifRefTokenize(src)
+	vf.Assert("reference-accepts-it-too", !failed && verifDerives(kinds))
+	got, ref := verifFlatten(lex.Result), verifRefFlatten(kinds)
+	same := len(got) == len(ref)
+	for i := 0; same && i < len(got); i++ {
+		same = got[i] == verifSubst(ref[i], texts)
+	}
+	vf.Assert("tree-lists-every-written-item-in-order", same)
+	vf.Reach("end")
+}
